@@ -146,6 +146,61 @@ def rand_value(rng, kind):
     return rand_date(rng) + rand_time(rng) + [rand_off(rng)]
 
 
+
+# ---- explicit item lists (canonical encoding of sf.items) --------------------------------------
+def lit(t):
+    return [0, b(t)]
+
+
+def sp(t):
+    return [1, b(t)]
+
+
+def nu(k, pad=1):
+    return [2, k, pad]
+
+
+def fx(k):
+    return [3, k]
+
+
+YEAR, CENT, YMOD, ISOY, ISOC, ISOYMOD, QUARTER, MONTH, DAY, WSUN, WMON, ISOW, WD0, WD1, ORD, HOUR, HOUR12, MIN, SEC, NANO, TS = range(21)
+RFC2822, RFC3339 = 17, 18
+ITEM_LISTS_DTZ = [
+    [fx(RFC2822)], [fx(RFC3339)], [lit('Date: '), fx(RFC2822)], [fx(RFC2822), lit(' (end)')], [fx(RFC2822), sp(' '), fx(RFC3339)],
+    [fx(RFC3339), lit('|'), fx(RFC2822)], [sp(' '), fx(RFC2822), sp('\n')], [fx(RFC2822), nu(TS, 0)], [nu(TS, 0), lit(' '), fx(RFC2822)],
+    [nu(YEAR), lit('-'), nu(MONTH), lit('-'), nu(DAY), lit('T'), nu(HOUR), lit(':'), nu(MIN), lit(':'), nu(SEC), fx(6), fx(11)],
+    [nu(YEAR), nu(MONTH), nu(DAY), nu(HOUR), nu(MIN), nu(SEC), fx(103), fx(15)],
+    [nu(YEAR), lit('-'), nu(ORD), sp(' '), nu(HOUR12, 2), lit(':'), nu(MIN), lit(':'), nu(SEC), sp(' '), fx(5), sp(' '), fx(15)],
+    [nu(ISOY), lit('-W'), nu(ISOW), lit('-'), nu(WD1, 0), lit(' '), nu(HOUR), lit(':'), nu(MIN), lit(':'), nu(SEC), fx(7), lit(' '), fx(11)],
+    [nu(TS, 0), lit(' '), fx(15)], [nu(TS, 0), fx(9), fx(11)], [fx(3), lit(', '), fx(1), sp(' '), nu(DAY, 2), lit(', '), nu(YEAR), sp(' '), nu(HOUR), nu(MIN), nu(SEC), fx(101), fx(15)],
+    # no claim: `Z` offset items, print-only / read-only offsets, ISO century, odd white space, Error
+    [nu(YEAR), nu(MONTH), nu(DAY), nu(HOUR), nu(MIN), nu(SEC), fx(14)], [nu(YEAR), nu(MONTH), nu(DAY), nu(HOUR), nu(MIN), nu(SEC), fx(16)],
+    [fx(RFC2822), fx(12)], [fx(RFC2822), fx(100)], [nu(ISOC), nu(ISOYMOD), lit('-'), nu(ISOW), lit('-'), nu(WD0, 0), fx(RFC2822)],
+    [sp('x'), fx(RFC2822)], [sp(' '), lit(' '), fx(RFC2822)], [fx(RFC2822), [4]], [fx(10), lit(' '), fx(RFC2822)],
+]
+ITEM_LISTS_D = [
+    [nu(YEAR), lit('-'), nu(MONTH), lit('-'), nu(DAY)], [nu(YEAR, 0), lit('/'), nu(ORD, 0)], [nu(YEAR, 2), sp(' '), nu(WSUN, 2), sp(' '), fx(2)],
+    [nu(CENT), nu(YMOD), nu(MONTH), nu(DAY)], [fx(3), sp(' '), fx(1), sp(' '), nu(DAY, 0), sp(' '), nu(YEAR)], [nu(ISOY), lit('W'), nu(ISOW), nu(WD1, 0)],
+    [nu(YMOD), fx(0), nu(DAY)], [nu(YEAR), nu(QUARTER, 0), nu(MONTH), nu(DAY)], [nu(YEAR), lit('年'), nu(MONTH), lit('月'), nu(DAY), lit('日')],
+    [nu(DAY, 0), nu(MONTH, 0), nu(YEAR)], [nu(YEAR), nu(WMON), nu(WD0, 0)],
+]
+ITEM_LISTS_T = [
+    [nu(HOUR), lit(':'), nu(MIN), lit(':'), nu(SEC)], [nu(HOUR12, 2), lit(':'), nu(MIN), lit(':'), nu(SEC), sp(' '), fx(4)],
+    [nu(HOUR), nu(MIN), nu(SEC), fx(102)], [nu(HOUR), lit(':'), nu(MIN), lit(':'), nu(SEC), fx(6)], [nu(HOUR), lit(':'), nu(MIN), lit(':'), nu(SEC), fx(8)],
+    [nu(HOUR), nu(MIN), nu(SEC), lit('.'), nu(NANO)], [nu(HOUR, 0), lit('h'), nu(MIN, 0), lit('m'), nu(SEC, 0), lit('s'), nu(NANO, 0), lit('ns')],
+    [fx(5), nu(HOUR12), nu(MIN), nu(SEC)], [nu(HOUR), lit(':'), nu(MIN)],
+]
+RFC2822_TEXTS = [
+    'Sun, 8 Jul 2001 00:34:60 +0930', 'Tue, 1 Jul 2003 10:52:37 +0200', 'Wed, 18 Feb 2015 23:16:09 GMT', '18 Feb 2015 23:16:09 +0000',
+    'Fri, 21 Nov 1997 09:55:06 -0600', 'Fri, 21 Nov 1997 09(comment):   55  :  06 -0600', 'Fri, 21 Nov 1997 09:   55  :  06 -0600',
+    'Fri, 21 Nov 1997 09:55:  06 -0600', 'Fri, 21 Nov 1997 09:55 -0600', 'Thu, 13 Feb 1969 23:32 -0330 (Newfoundland Time)',
+    '21 Nov 97 09:55:06 GMT', '21 Nov 097 09:55:06 EST', '1 Jan 49 00:00:00 Z', '1 Jan 50 00:00:00 A', 'Mon, 31 Dec 9999 23:59:59 +2359',
+    'mon,  1 jan 0000 00:00:00 -0000', 'Sun, 06 Nov 1994 08:49:37 +0000 (a (nested) \\) comment) (two)', 'Sat, 8 Jul 2001 00:34:60 +0930',
+    'Sun, 8 Jul 2001 24:34:60 +0930', 'Sun, 8 Jul 2001 00:34:61 +0930', 'Sun, 8 Jul 2001 00:34:60 +09:30', 'Sun, 8 Jul 2001 00:34:60 −0930',
+    'Sun,8 Jul 2001 00:34:60+0930', 'Sun, 8 Jul 2001 00:34:60 PDT', 'Sun, 8 Jul 2001 00:34:60 XYZ', 'Sun, 32 Jul 2001 00:34:60 +0930',
+]
+
 MODS = ['', '', '', '-', '_', '0']
 RSEPS = ['-', '-', '/', ' ', ' ', ':', '.', ',', 'T', '', '', '  ', '\t', '%n', '%t', '%%', 'x', 'é', '　', '|', ' of ', '1', '+']
 
@@ -392,6 +447,36 @@ def cases(tier, rng):
             yield case_line('fp.rt', 3, rng.choice(zdates) + rng.choice(small_times) + [rng.choice(OFFS)], f)
         for _ in range(6):
             yield case_line('fp.rt', 3, rand_value(rng, 3), f)
+    # --- explicit item lists: RFC 2822 / RFC 3339 items, internal items, Owned literals
+    for items in ITEM_LISTS_DTZ:
+        for d in zdates:
+            for t in small_times:
+                for off in (0, 34200, -3600, 86340, -86340):
+                    yield case_line('fp.irt', 3, d + t + [off], items)
+        for _ in range(40):
+            yield case_line('fp.irt', 3, rand_value(rng, 3), items)
+            yield case_line('fp.irt', 2, rand_value(rng, 2), items)
+    for items in ITEM_LISTS_D:
+        for d in all_dates:
+            yield case_line('fp.irt', 0, d, items)
+    for items in ITEM_LISTS_T:
+        for t in times:
+            yield case_line('fp.irt', 1, t, items)
+    yield case_line('fp.irt', 0, [2001, 1], [[2, 21, 0]])
+    yield case_line('fp.irt', 0, [2001, 1], [[3, 19]])
+    yield case_line('fp.irt', 0, [2001, 1], [[0, b'\xff']])
+    yield case_line('fp.irt', 0, [2001, 1], [[5]])
+    yield case_line('fp.iparse', 9, b('x'), [[4]])
+    for text in RFC2822_TEXTS:
+        for items in ([fx(RFC2822)], [fx(RFC2822), sp('')], [lit('Date: '), fx(RFC2822)]):
+            pre = 'Date: ' if len(items) == 2 and items[0][0] == 0 else ''
+            yield case_line('fp.iparse', 3, b(pre + text), items)
+            yield case_line('fp.iparse', 2, b(pre + text), items)
+            for _ in range(12 * K):
+                yield case_line('fp.iparse', 3, b(pre + mutate(rng, text)), items)
+    for _ in range(2000 * K):
+        text, f = simple_text(rng, 3)
+        yield case_line('fp.iparse', 3, b(mutate(rng, text)), [fx(RFC3339)])
     # --- perturbation of case and white space
     for f in NAMES_WS_FORMS:
         for d in dates(YEARS_SMALL, [1, 60, 95, 130, 160, 189, 220, 250, 280, 310, 340, 365]):
